@@ -207,3 +207,296 @@ Proof.
     destruct (Hpd _ Hg) as [[_ Hx]|Hx]; [discriminate|exact Hx].
   - apply Nat.eqb_neq in E. destruct (Hpd _ Hg) as [[Hx _]|Hx]; [contradiction|exact Hx].
 Qed.
+
+(** ** Open, Close, IsOpen always return; the read loop is never blocked *)
+
+Lemma no_deadlock pol m p tr s :
+  run Fixed pol (init m p) tr = Some s ->
+  step Fixed pol s EIsOpen = Some (s, [b2z (is_open s && under s)])
+  /\ (if is_open s then step Fixed pol s (EOpen 0) = Some (s, [1])
+      else if under s then exists s', step Fixed pol s (EOpen 3) = Some (s', [0]) /\ is_open s' = true
+      else (exists s', step Fixed pol s (EOpen 1) = Some (s', [0]) /\ is_open s' = true)
+           /\ step Fixed pol s (EOpen 2) = Some (s, [3]))
+  /\ (if is_open s
+      then (exists s', step Fixed pol s (EClose 1) = Some (s', [0; Z.of_nat (gen s); 0]) /\ is_open s' = false)
+           /\ step Fixed pol s (EClose 2) = Some (s, [3])
+      else step Fixed pol s (EClose 0) = Some (s, [2]))
+  /\ (forall g, (exists c, loops s g = LSawErr c) \/ (exists c l, loops s g = LAtClose c l) ->
+                exists a r, step Fixed pol s (ELoop g a) = Some r).
+Proof.
+  intros Hrun. destruct (reachable_inv _ _ _ _ _ Hrun) as [Hu Hs Hpo Hpd Hf Hz Hr].
+  split; [reflexivity|]. split; [|split].
+  - cbn [step]. unfold open_step. destruct (is_open s) eqn:Ho; [reflexivity|].
+    destruct (under s) eqn:Hun; cbn.
+    + eexists; split; reflexivity.
+    + split; [eexists; split; reflexivity | reflexivity].
+  - cbn [step]. unfold close_step. cbn [stale sigidx]. destruct (is_open s) eqn:Ho; cbn.
+    + rewrite (Hs eq_refl). cbn. split; [eexists; split; reflexivity | reflexivity].
+    + reflexivity.
+  - intros g [[c Hl]|[c [l Hl]]]; cbn [step]; rewrite Hl.
+    + exists 0. cbn. destruct (sig s g); eexists; reflexivity.
+    + unfold close_step. cbn [stale sigidx].
+      destruct (negb (is_open s) || negb (Nat.eqb g (gen s))) eqn:Hn.
+      * exists 0. cbn. eexists; reflexivity.
+      * apply orb_false_iff in Hn. destruct Hn as [Hn _]. apply negb_false_iff in Hn.
+        rewrite (Hs Hn). exists 1. cbn. eexists; reflexivity.
+Qed.
+
+(** ** a failure seen by the current read loop closes the transport and publishes its cause *)
+
+Lemma nat_eqb_refl' n : Nat.eqb n n = true.
+Proof. apply Nat.eqb_refl. Qed.
+
+Lemma at_close_closes pol m p tr s c l :
+  run Fixed pol (init m p) tr = Some s ->
+  is_open s = true -> loops s (gen s) = LAtClose c l ->
+  exists s', step Fixed pol s (ELoop (gen s) 1) = Some (s', [5; Z.of_nat (gen s); c])
+    /\ is_open s' = false /\ gen s' = gen s /\ pub s' (gen s) = [c] /\ loops s' (gen s) = LExited
+    /\ closes s' = closes s ++ [c]
+    /\ (mon_set s = true -> mon_sig s = None -> mon_sig s' = Some c).
+Proof.
+  intros Hrun Ho Hl. destruct (reachable_inv _ _ _ _ _ Hrun) as [Hu Hs Hpo Hpd Hf Hz Hr].
+  cbn [step]. rewrite Hl. unfold close_step. cbn [stale sigidx].
+  rewrite Ho, nat_eqb_refl', (Hs Ho). cbn.
+  eexists; split; [reflexivity|].
+  cbn [set_loop closed_state is_open gen pub loops closes mon_sig sigidx].
+  rewrite !upd_same, (Hpo Ho). repeat split; auto.
+  intros Hm Hn. rewrite Hn, Hm. reflexivity.
+Qed.
+
+Lemma saw_err_closes pol m p tr s c :
+  run Fixed pol (init m p) tr = Some s ->
+  is_open s = true -> loops s (gen s) = LSawErr c ->
+  exists s1 s2 l, step Fixed pol s (ELoop (gen s) 0) = Some (s1, [l])
+    /\ step Fixed pol s1 (ELoop (gen s) 1) = Some (s2, [5; Z.of_nat (gen s); c])
+    /\ is_open s2 = false /\ gen s2 = gen s /\ pub s2 (gen s) = [c] /\ loops s2 (gen s) = LExited
+    /\ closes s2 = closes s ++ [c]
+    /\ (mon_set s = true -> mon_sig s = None -> mon_sig s2 = Some c).
+Proof.
+  intros Hrun Ho Hl. pose proof (reachable_inv _ _ _ _ _ Hrun) as Hi. destruct Hi as [Hu Hs Hpo Hpd Hf Hz Hr].
+  set (l := if c =? 0 then 2 else 3).
+  assert (H1 : step Fixed pol s (ELoop (gen s) 0) = Some (set_loop s (gen s) (LAtClose c l), [l])).
+  { cbn [step]. rewrite Hl. cbn [sigidx]. rewrite (Hs Ho). reflexivity. }
+  assert (Hrun1 : run Fixed pol (init m p) (tr ++ [ELoop (gen s) 0]) = Some (set_loop s (gen s) (LAtClose c l))).
+  { clear -Hrun H1. revert Hrun. generalize (init m p). induction tr as [|e tr IH]; cbn [run app]; intros s0 Hrun.
+    - inversion Hrun; subst. rewrite H1. reflexivity.
+    - destruct (step Fixed pol s0 e) as [[s1 o]|]; [|discriminate]. auto. }
+  destruct (at_close_closes pol m p _ _ c l Hrun1) as (s2 & Hst & Hc & Hg & Hp & Hlx & Hcl & Hm).
+  { exact Ho. }
+  { cbn [set_loop loops gen]. apply upd_same. }
+  exists (set_loop s (gen s) (LAtClose c l)), s2, l.
+  cbn [set_loop gen] in *. repeat split; auto.
+Qed.
+
+Lemma read_failure_closes pol m p tr s buf k :
+  run Fixed pol (init m p) tr = Some s ->
+  loops s (gen s) = LReading buf ->
+  exists s3, run Fixed pol s [EReadErr (gen s) k; ELoop (gen s) 0; ELoop (gen s) 1] = Some s3
+    /\ is_open s3 = false /\ gen s3 = gen s /\ pub s3 (gen s) = [classify (zlen buf) k]
+    /\ loops s3 (gen s) = LExited
+    /\ closes s3 = closes s ++ [classify (zlen buf) k]
+    /\ (mon_set s = true -> mon_sig s = None -> mon_sig s3 = Some (classify (zlen buf) k)).
+Proof.
+  intros Hrun Hl. pose proof (reachable_inv _ _ _ _ _ Hrun) as Hi.
+  destruct (i_reading _ Hi _ _ Hl) as [_ Ho].
+  set (c := classify (zlen buf) k).
+  set (s1 := set_loop s (gen s) (LSawErr c)).
+  assert (H1 : step Fixed pol s (EReadErr (gen s) k) = Some (s1, [1])).
+  { cbn [step]. rewrite Hl. reflexivity. }
+  assert (Hrun1 : run Fixed pol (init m p) (tr ++ [EReadErr (gen s) k]) = Some s1).
+  { clear -Hrun H1. revert Hrun. generalize (init m p). induction tr as [|e tr IH]; cbn [run app]; intros s0 Hrun.
+    - inversion Hrun; subst. rewrite H1. reflexivity.
+    - destruct (step Fixed pol s0 e) as [[s2 o]|]; [|discriminate]. auto. }
+  destruct (saw_err_closes pol m p _ s1 c Hrun1) as (sa & sb & l & Ha & Hb & Hc & Hg & Hp & Hlx & Hcl & Hm).
+  { exact Ho. }
+  { subst s1. cbn [set_loop loops gen]. apply upd_same. }
+  exists sb. cbn [run]. rewrite H1.
+  change (gen s1) with (gen s) in *. rewrite Ha, Hb.
+  repeat split; auto.
+Qed.
+
+(** ** where a nil cause can come from *)
+
+Definition rkind_wf (k : rkind) : Prop :=
+  match k with ErrRaw t | ErrTte t => 0 <= t | _ => True end.
+
+Lemma classify_nil n k : rkind_wf k ->
+  (classify n k = 0 <-> k = EofTte \/ (k = EofRaw /\ 4 <= n)).
+Proof.
+  intros Hwf. unfold classify. destruct k; cbn in Hwf.
+  - destruct (4 <=? n) eqn:E; [apply Z.leb_le in E | apply Z.leb_gt in E].
+    + split; auto.
+    + destruct (n =? 0); split; try discriminate; intros [H|[_ H]]; try discriminate; lia.
+  - split; auto.
+  - destruct (4 <=? n); split; try lia; intros [H|[H _]]; discriminate.
+  - split; try lia; intros [H|[H _]]; discriminate.
+  - split; try discriminate; intros [H|[H _]]; discriminate.
+Qed.
+
+(** a step that publishes on a Closed() channel: it is the current generation's channel, the
+    transport goes from open to closed, and the cause is nil for Close(), the calling read
+    loop's recorded cause otherwise *)
+Lemma set_loop_pub s g l : pub (set_loop s g l) = pub s.
+Proof. reflexivity. Qed.
+
+Lemma publish_provenance_inv pol s e s' o g :
+  inv s -> step Fixed pol s e = Some (s', o) -> pub s' g <> pub s g ->
+  g = gen s /\ is_open s = true /\ is_open s' = false /\
+  exists c, pub s' g = pub s g ++ [c] /\
+    ((e = EClose 1 /\ c = 0) \/ (exists l, e = ELoop g 1 /\ loops s g = LAtClose c l)).
+Proof.
+  intros Hi H Hne.
+  assert (Hopen : forall a s1 code, open_step Fixed a s = Some (s1, code) -> pub s1 g = pub s g).
+  { intros a s1 code Ho. apply open_step_cases in Ho.
+    destruct Ho as [(_&_&->&_)|[(Hc&->&_)|(_&_&_&->&_)]]; auto.
+    cbn [opened pub]. unfold upd. destruct (Nat.eqb g (S (gen s))) eqn:E; auto.
+    apply Nat.eqb_eq in E. subst g. destruct (i_fresh _ Hi (S (gen s))) as (_ & Hp & _); [lia|]. now rewrite Hp. }
+  destruct e; cbn [step] in H.
+  - destruct (open_step Fixed a s) as [[s1 code]|] eqn:Ho; [|discriminate]. inversion H; subst.
+    exfalso. apply Hne. eapply Hopen; eauto.
+  - destruct (close_step Fixed None 0 a s) as [[[s1 code] p]|] eqn:Hc; [|discriminate]. inversion H; subst.
+    apply close_step_cases in Hc.
+    destruct Hc as [(_&->&_)|(Ho&_&_&[(_&->&_)|(->&->&_)])]; try contradiction.
+    cbn [closed_state pub is_open] in *.
+    destruct (Nat.eq_dec g (gen s)) as [->|Hg]; [|rewrite upd_other in Hne by exact Hg; contradiction].
+    rewrite upd_same. repeat split; auto. exists 0. split; auto.
+  - inversion H; subst. contradiction.
+  - destruct (loops s g0) as [|buf| | |]; try discriminate.
+    destruct (drain_buf (buf ++ b)) as [[ex rest] [| |]]; inversion H; subst; contradiction.
+  - destruct (loops s g0) as [|buf| | |]; try discriminate. inversion H; subst. contradiction.
+  - destruct (loops s g0) as [|buf|c|c l|] eqn:Hl; try discriminate.
+    + destruct (a =? 0); [|discriminate]. destruct (sig s (sigidx Fixed g0)); inversion H; subst; contradiction.
+    + destruct (close_step Fixed (Some g0) c a s) as [[[s1 code] p]|] eqn:Hc; [|discriminate]. inversion H; subst.
+      rewrite set_loop_pub in *.
+      apply close_step_cases in Hc.
+      destruct Hc as [(_&->&_)|(Ho&Hst&_&[(_&->&_)|(->&->&_)])]; try contradiction.
+      cbn [stale] in Hst. apply negb_false_iff, Nat.eqb_eq in Hst. subst g0.
+      cbn [closed_state pub is_open set_loop] in *.
+      destruct (Nat.eq_dec g (gen s)) as [->|Hg]; [|rewrite upd_other in Hne by exact Hg; contradiction].
+      rewrite upd_same. repeat split; auto. exists c. split; auto. right. exists l. auto.
+  - destruct (mon_set s); [|discriminate].
+    destruct (mon s); try discriminate. destruct (mon_sig s) as [c|]; [|discriminate].
+    destruct (c =? 0); [inversion H; subst; contradiction|].
+    destruct (on_closed_uncleanly pol) as [reopen w]. inversion H; subst. contradiction.
+  - destruct (mon_set s); [|discriminate].
+    destruct (mon s) as [|prev w|]; try discriminate.
+    destruct (open_step Fixed a s) as [[s1 code]|] eqn:Ho; [|discriminate].
+    pose proof (Hopen _ _ _ Ho) as Hp.
+    exfalso. apply Hne. rewrite <- Hp.
+    destruct code; [inversion H; subst; reflexivity| |];
+      destruct (on_reopen_failed pol (prev + 1) w) as [reopen w']; inversion H; subst; reflexivity.
+Qed.
+
+(** how read loops come to hold a cause: label 2 (the EOF branch, which closes with nil) exactly
+    for cause 0; a loop that saw an error with cause 0 got it from [classify] *)
+Definition loop_causes_ok (s : st) : Prop :=
+  forall g c l, loops s g = LAtClose c l -> (c = 0 <-> l = 2).
+
+Lemma loop_causes_step pol s e s' o :
+  step Fixed pol s e = Some (s', o) -> loop_causes_ok s -> loop_causes_ok s'.
+Proof.
+  intros H Hok g1 c1 l1 Hl1.
+  assert (Hset : forall s0 g0 l0, loop_causes_ok s0 ->
+            (forall c l, l0 = LAtClose c l -> (c = 0 <-> l = 2)) ->
+            loops (set_loop s0 g0 l0) g1 = LAtClose c1 l1 -> (c1 = 0 <-> l1 = 2)).
+  { intros s0 g0 l0 Hok0 Hl0 Hx. cbn [set_loop loops] in Hx. unfold upd in Hx.
+    destruct (Nat.eqb g1 g0); [eapply Hl0; eauto | eapply Hok0; eauto]. }
+  assert (Hclosed : forall c, loop_causes_ok (closed_state Fixed c s)).
+  { intros c g c' l' Hx. cbn [closed_state loops] in Hx. destruct (loops s g) eqn:E; cbn in Hx; try discriminate.
+    inversion Hx; subst. eapply Hok; eauto. }
+  assert (Hopened : loop_causes_ok (opened Fixed s)).
+  { intros g c' l' Hx. cbn [opened loops] in Hx. unfold upd in Hx.
+    destruct (Nat.eqb g (S (gen s))); [discriminate | eapply Hok; eauto]. }
+  assert (Hopen : forall a s1 code, open_step Fixed a s = Some (s1, code) -> loop_causes_ok s1).
+  { intros a s1 code Ho. apply open_step_cases in Ho.
+    destruct Ho as [(_&_&->&_)|[(Hc&->&_)|(_&_&_&->&_)]]; auto. }
+  destruct e; cbn [step] in H.
+  - destruct (open_step Fixed a s) as [[s1 code]|] eqn:Ho; [|discriminate]. inversion H; subst.
+    eapply Hopen; eauto.
+  - destruct (close_step Fixed None 0 a s) as [[[s1 code] p]|] eqn:Hc; [|discriminate]. inversion H; subst.
+    apply close_step_cases in Hc.
+    destruct Hc as [(_&->&_)|(Ho&_&_&[(_&->&_)|(_&->&_)])]; eauto. eapply Hclosed; eauto.
+  - inversion H; subst. eapply Hok; eauto.
+  - destruct (loops s g) as [|buf| | |]; try discriminate.
+    destruct (drain_buf (buf ++ b)) as [[ex rest] [| |]]; inversion H; subst;
+      (eapply Hset; [exact Hok | | exact Hl1]); intros c l Hx; try discriminate.
+    inversion Hx; subst. split; intros; discriminate.
+  - destruct (loops s g) as [|buf| | |]; try discriminate. inversion H; subst.
+    (eapply Hset; [exact Hok | | exact Hl1]); intros c l Hx; discriminate.
+  - destruct (loops s g) as [|buf|c|c l|] eqn:Hl; try discriminate.
+    + destruct (a =? 0); [|discriminate]. destruct (sig s (sigidx Fixed g)); inversion H; subst.
+      * eapply (Hset (set_sig s (sigidx Fixed g) false)); [ | | exact Hl1]; [|intros c' l' Hx; discriminate].
+        intros g' c' l' Hx. eapply Hok; eauto.
+      * (eapply Hset; [exact Hok | | exact Hl1]). intros c' l' Hx. inversion Hx; subst.
+        destruct (c' =? 0) eqn:E; [apply Z.eqb_eq in E | apply Z.eqb_neq in E]; split; intros; auto; try lia; discriminate.
+    + destruct (close_step Fixed (Some g) c a s) as [[[s1 code] p]|] eqn:Hc; [|discriminate]. inversion H; subst.
+      apply close_step_cases in Hc.
+      destruct Hc as [(_&->&_)|(Ho&_&_&[(_&->&_)|(_&->&_)])];
+        (eapply Hset; [ | | exact Hl1]); auto; intros c' l' Hx; discriminate.
+  - destruct (mon_set s); [|discriminate].
+    destruct (mon s); try discriminate. destruct (mon_sig s) as [c|]; [|discriminate].
+    destruct (c =? 0); [inversion H; subst; eapply Hok; eauto|].
+    destruct (on_closed_uncleanly pol) as [reopen w]. inversion H; subst. eapply Hok; eauto.
+  - destruct (mon_set s); [|discriminate].
+    destruct (mon s) as [|prev w|]; try discriminate.
+    destruct (open_step Fixed a s) as [[s1 code]|] eqn:Ho; [|discriminate].
+    pose proof (Hopen _ _ _ Ho) as Hp.
+    destruct code; [inversion H; subst; eapply Hp; eauto| |];
+      destruct (on_reopen_failed pol (prev + 1) w) as [reopen w']; inversion H; subst; eapply Hp; eauto.
+Qed.
+
+Lemma loop_causes_reachable pol m p tr s : run Fixed pol (init m p) tr = Some s -> loop_causes_ok s.
+Proof.
+  assert (G : forall tr s0 s1, run Fixed pol s0 tr = Some s1 -> loop_causes_ok s0 -> loop_causes_ok s1).
+  { induction tr0 as [|e tr0 IH]; cbn [run]; intros s0 s1 H Hok.
+    - inversion H; subst; auto.
+    - destruct (step Fixed pol s0 e) as [[s2 o]|] eqn:Hs; [|discriminate]. eauto using loop_causes_step. }
+  intros H. eapply G; eauto. intros g c l Hx. discriminate.
+Qed.
+
+(** a loop in state "saw an error, cause 0" got there by a read error classified as EOF *)
+Lemma saw_nil_provenance pol s e s' o g :
+  step Fixed pol s e = Some (s', o) -> loops s' g = LSawErr 0 ->
+  loops s g = LSawErr 0 \/ exists buf k, e = EReadErr g k /\ loops s g = LReading buf /\ classify (zlen buf) k = 0.
+Proof.
+  intros H Hl.
+  assert (Hset : forall s0 g0 l0, loops (set_loop s0 g0 l0) g = LSawErr 0 ->
+            (g = g0 /\ l0 = LSawErr 0) \/ loops s0 g = LSawErr 0).
+  { intros s0 g0 l0 Hx. cbn [set_loop loops] in Hx. unfold upd in Hx.
+    destruct (Nat.eqb g g0) eqn:E; [apply Nat.eqb_eq in E; left; auto | right; auto]. }
+  assert (Hclosed : forall c, loops (closed_state Fixed c s) g = LSawErr 0 -> loops s g = LSawErr 0).
+  { intros c Hx. cbn [closed_state loops] in Hx. destruct (loops s g) eqn:E; cbn in Hx; try discriminate; auto. }
+  assert (Hopen : forall a s1 code, open_step Fixed a s = Some (s1, code) -> loops s1 g = LSawErr 0 -> loops s g = LSawErr 0).
+  { intros a s1 code Ho Hx. apply open_step_cases in Ho.
+    destruct Ho as [(_&_&->&_)|[(Hc&->&_)|(_&_&_&->&_)]]; auto.
+    cbn [opened loops] in Hx. unfold upd in Hx. destruct (Nat.eqb g (S (gen s))); [discriminate|auto]. }
+  destruct e; cbn [step] in H.
+  - destruct (open_step Fixed a s) as [[s1 code]|] eqn:Ho; [|discriminate]. inversion H; subst. left. eauto.
+  - destruct (close_step Fixed None 0 a s) as [[[s1 code] p]|] eqn:Hc; [|discriminate]. inversion H; subst.
+    apply close_step_cases in Hc.
+    destruct Hc as [(_&->&_)|(Ho&_&_&[(_&->&_)|(_&->&_)])]; eauto.
+  - inversion H; subst. auto.
+  - destruct (loops s g0) as [|buf| | |] eqn:E0; try discriminate.
+    destruct (drain_buf (buf ++ b)) as [[ex rest] [| |]]; inversion H; subst;
+      apply Hset in Hl; destruct Hl as [[_ Hx]|Hx]; auto; discriminate.
+  - destruct (loops s g0) as [|buf| | |] eqn:E0; try discriminate. inversion H; subst.
+    apply Hset in Hl. destruct Hl as [[-> Hx]|Hx]; auto.
+    inversion Hx. right. exists buf, k. auto.
+  - destruct (loops s g0) as [|buf|c|c l|] eqn:Hl0; try discriminate.
+    + destruct (a =? 0); [|discriminate]. destruct (sig s (sigidx Fixed g0)); inversion H; subst;
+        apply Hset in Hl; destruct Hl as [[_ Hx]|Hx]; auto; discriminate.
+    + destruct (close_step Fixed (Some g0) c a s) as [[[s1 code] p]|] eqn:Hc; [|discriminate]. inversion H; subst.
+      apply Hset in Hl. destruct Hl as [[_ Hx]|Hx]; [discriminate|].
+      apply close_step_cases in Hc.
+      destruct Hc as [(_&->&_)|(Ho&_&_&[(_&->&_)|(_&->&_)])]; eauto.
+  - destruct (mon_set s); [|discriminate].
+    destruct (mon s); try discriminate. destruct (mon_sig s) as [c|]; [|discriminate].
+    destruct (c =? 0); [inversion H; subst; auto|].
+    destruct (on_closed_uncleanly pol) as [reopen w]. inversion H; subst. auto.
+  - destruct (mon_set s); [|discriminate].
+    destruct (mon s) as [|prev w|]; try discriminate.
+    destruct (open_step Fixed a s) as [[s1 code]|] eqn:Ho; [|discriminate].
+    left. eapply Hopen; eauto.
+    destruct code; [inversion H; subst; auto| |];
+      destruct (on_reopen_failed pol (prev + 1) w) as [reopen w']; inversion H; subst; auto.
+Qed.
